@@ -95,8 +95,10 @@ package main
 //@   props C19
 //@   requires m != nil
 //
+//   (C04, C14: a table left nil by the reset makes the next UpdateCountryStats panic under the metrics lock, which
+//   ProxyPolls holds without a deferred unlock - every later poll then waits for that lock for ever.)
 //@ func (m *Metrics) zeroMetrics()
-//@   props C19
+//@   props C19, C04, C14
 //@   model int
 //@   requires m != nil && metricsWF(m)
 //@   loop 1 invariant csMaps(m) && (forall pt string :: csType(m, pt)) && (forall pt string :: ucsSets(m, pt)) && len(m.countryStats.unknown) == entry(len(m.countryStats.unknown))
